@@ -335,6 +335,90 @@ fn add_oracle(rep: &mut Report, props: &[&str], key: &str, what: String, case: S
     });
 }
 
+/// Format-independent oracles on one executed operation (used by the engines that drive
+/// Mach-O and PE modules through the same operations as `hist`): progress of caller-frame
+/// steps (C10), no null frame and a truthful unreadable address (C11), stripped addresses and
+/// an unchanged mask on aarch64 (C16), walks that never revisit a state (C10).
+pub fn step_oracles(rep: &mut Report, op: &Op, obs: &Obs, ans: &str, case: impl Fn() -> String) {
+    match op {
+        Op::Unwind { is_ra, regs, .. } => {
+            let (Some(res), Some(after)) = (&obs.res, &obs.regs_after) else { return };
+            match res {
+                Ok(Some(ra)) => {
+                    if *ra == 0 {
+                        add_oracle(rep, &["C11"], "null-frame", "null address reported as a frame".into(), case(), ans);
+                    }
+                    if *is_ra {
+                        let (sp0, sp1) = (regs.sp(), after.sp());
+                        if sp1 < sp0 {
+                            add_oracle(rep, &["C10"], "sp-decreased", "stack pointer decreased in a caller frame".into(), case(), ans);
+                        }
+                        match (regs, after) {
+                            (RegsAny::X(r0), RegsAny::X(r1)) => {
+                                if sp1 == sp0 && *ra == r0.ip {
+                                    add_oracle(rep, &["C10"], "no-advance", "success with sp and address unchanged".into(), case(), ans);
+                                }
+                                if r1.ip != *ra {
+                                    add_oracle(rep, &["C10"], "ip-not-ra", "ip register differs from the returned address".into(), case(), ans);
+                                }
+                            }
+                            (RegsAny::A(_), RegsAny::A(_)) => {
+                                if sp1 <= sp0 {
+                                    add_oracle(rep, &["C10"], "sp-not-increased", "aarch64 caller-frame step did not increase sp".into(), case(), ans);
+                                }
+                            }
+                            _ => {}
+                        }
+                    }
+                    if let (RegsAny::A(r0), RegsAny::A(r1)) = (regs, after) {
+                        if ra & !r0.mask != 0 {
+                            add_oracle(rep, &["C16"], "ra-unstripped", "returned address has bits outside the mask".into(), case(), ans);
+                        }
+                        if r1.lr & !r0.mask != 0 {
+                            add_oracle(rep, &["C16"], "lr-unstripped", "lr has bits outside the mask".into(), case(), ans);
+                        }
+                        if r1.mask != r0.mask {
+                            add_oracle(rep, &["C16"], "mask-replaced", format!("the register set carries the mask {:#x} after the step instead of the caller's {:#x}", r1.mask, r0.mask), case(), ans);
+                        }
+                    }
+                }
+                Err(Error::CouldNotReadStack(a)) => {
+                    if !obs.reads.iter().any(|(ra, failed)| ra == a && *failed) {
+                        add_oracle(rep, &["C11"], "wrong-unreadable-address", "CouldNotReadStack names an address whose read did not fail".into(), case(), ans);
+                    }
+                }
+                _ => {}
+            }
+        }
+        Op::Iter { pc, regs, .. } => {
+            for (i, st) in obs.states.iter().enumerate() {
+                if i >= 2 && obs.states[1..i].contains(st) {
+                    add_oracle(rep, &["C10"], "walk-revisits-state", format!("state (address={:#x}, sp={:#x}, fp={:#x}) visited twice in one walk", st.0, st.1, st.2), case(), ans);
+                    break;
+                }
+                if i >= 2 && st.1 < obs.states[i - 1].1 {
+                    add_oracle(rep, &["C10"], "walk-sp-decreased", format!("sp decreased from {:#x} to {:#x} across a caller frame", obs.states[i - 1].1, st.1), case(), ans);
+                    break;
+                }
+            }
+            if let RegsAny::A(r0) = regs {
+                for it in &obs.items {
+                    if let Some(v) = it.strip_prefix("ra:").and_then(|h| u64::from_str_radix(h, 16).ok()) {
+                        if v & !r0.mask != 0 {
+                            add_oracle(rep, &["C16"], "walk-reports-unstripped-address", format!("the walk reports {v:#x}, which has bits outside the caller's mask {:#x}", r0.mask), case(), ans);
+                            break;
+                        }
+                    }
+                }
+            }
+            if obs.items.iter().any(|s| s == "ra:0" || s == "ip:0" && *pc != 0) {
+                add_oracle(rep, &["C11", "C17"], "iterator-null-frame", "iterator yielded a null frame".into(), case(), ans);
+            }
+        }
+        _ => {}
+    }
+}
+
 /// For a first frame at `pc`: if `pc` lies in a live module with at least one FDE, usable
 /// lookup structures and no FDE covering it, the outcome of treating it as a frameless leaf.
 fn uncovered_leaf_expectation<H: ArchH>(w: &World<H>, u: &str, pc: u64, regs: &RegsAny, mem: &crate::mem::MemDesc) -> Option<String> {
@@ -1048,7 +1132,7 @@ fn placement_twins<H: ArchH>(rep: &mut Report, p: &mut Prng, id: u64) {
             return;
         }
         mods_b[i] = Some(nm);
-        cur += size + if p.chance(1, 2) { 0 } else { p.below(0x800) };
+        cur += size + if size == 0 { 1 } else { 0 } + if p.chance(1, 2) { 0 } else { p.below(0x800) };
     }
     let mods_b: Vec<ModSpec> = mods_b.into_iter().map(|m| m.unwrap()).collect();
     let mut wa: World<H> = World::new();
@@ -1132,7 +1216,8 @@ fn boundary_scenarios<H: ArchH>(rep: &mut Report, p: &mut Prng, _id: u64) {
     let n = *p.pick(&[2usize, 3, 5, 8, 15, 16, 17, 24]);
     let base_svma: u64 = *p.pick(&[0u64, 0x1000, 0x40_0000]);
     let base_avma: u64 = *p.pick(&[0x40_0000u64, 0x5555_5555_0000, 0x7f00_0000_0000]);
-    let text_off: u64 = *p.pick(&[0x1000u64, 0x2000, 0x1f00]);
+    // (offset 0: with a stated base of 0 the first function starts at stated address 0)
+    let text_off: u64 = *p.pick(&[0u64, 0x1000, 0x2000, 0x1f00]);
     let mut fdes: Vec<FdeSpec> = Vec::new();
     let mut cur = base_svma + text_off;
     for i in 0..n {
@@ -1163,7 +1248,9 @@ fn boundary_scenarios<H: ArchH>(rep: &mut Report, p: &mut Prng, _id: u64) {
     let to_avma = |svma: u64| svma - base_svma + base_avma;
     let row_k = |f: &FdeSpec| match f.rows[0].1.cfa { Cfa::RegOff(_, k) => k as u64, _ => 0 };
     let expect = |lookup_avma: u64, regs: &RegsAny, mem: &crate::mem::MemDesc| -> Option<String> {
-        let svma = lookup_avma - base_avma + base_svma;
+        // (a lookup address below the image - the address before a function at the very start -
+        // lies in no FDE)
+        let svma = lookup_avma.checked_sub(base_avma)? + base_svma;
         let f = fdes.iter().find(|f| f.start <= svma && svma - f.start < f.len)?;
         let k = row_k(f);
         Some(match regs {
